@@ -58,7 +58,10 @@ Record config := {
 
 Record sess := {
   s_id : N;  s_mac : N;  s_state : N;  s_auth : bool;  s_ip : option N;
-  s_lcpid : N;  s_pin : N;  s_pout : N;  s_inst : N }.
+  s_lcpid : N;  s_pin : N;  s_pout : N;  s_inst : N;
+  s_hu : option bytes;      (* Session.HostUniq: nil when the PADR had no Host-Uniq tag *)
+  s_svc : bytes;            (* Session.ServiceName: the PADR's Service-Name value ("" without the tag) *)
+  s_user : bytes }.         (* Session.Username: set by every well-formed PAP request, accepted or not *)
 
 Record state := {
   st_sessions : list sess;          (* SessionManager.sessions, kept sorted by id *)
@@ -157,8 +160,8 @@ Fixpoint parse_opts_f (fuel : nat) (d : bytes) : option (list (N * bytes)) :=
   end.
 Definition parse_opts (d : bytes) : option (list (N * bytes)) := parse_opts_f (length d) d.
 
-(* the length checks of handlePAP: Some identifier for a well-formed Authenticate-Request *)
-Definition parse_pap (d : bytes) : option N :=
+(* the length checks of handlePAP: Some (identifier, user name) for a well-formed Authenticate-Request *)
+Definition parse_pap (d : bytes) : option (N * bytes) :=
   match d with
   | code :: id :: _ :: _ :: rest =>
       if negb (code =? 1) then None
@@ -167,7 +170,7 @@ Definition parse_pap (d : bytes) : option N :=
                if blen d <? 6 then None
                else if blen d <? 5 + ulen + 1 then None
                else let plen := nth (N.to_nat ulen) r1 0 in
-                    if blen d <? 6 + ulen + plen then None else Some id
+                    if blen d <? 6 + ulen + plen then None else Some (id, firstn (N.to_nat ulen) r1)
            | [] => None
            end
   | _ => None
@@ -186,23 +189,33 @@ Record sres := {
 
 Definition set_state (s : sess) (v : N) : sess :=
   {| s_id := s_id s; s_mac := s_mac s; s_state := v; s_auth := s_auth s; s_ip := s_ip s;
-     s_lcpid := s_lcpid s; s_pin := s_pin s; s_pout := s_pout s; s_inst := s_inst s |}.
+     s_lcpid := s_lcpid s; s_pin := s_pin s; s_pout := s_pout s; s_inst := s_inst s;
+     s_hu := s_hu s; s_svc := s_svc s; s_user := s_user s |}.
 Definition set_auth (s : sess) (a : bool) : sess :=
   {| s_id := s_id s; s_mac := s_mac s; s_state := s_state s; s_auth := a; s_ip := s_ip s;
-     s_lcpid := s_lcpid s; s_pin := s_pin s; s_pout := s_pout s; s_inst := s_inst s |}.
+     s_lcpid := s_lcpid s; s_pin := s_pin s; s_pout := s_pout s; s_inst := s_inst s;
+     s_hu := s_hu s; s_svc := s_svc s; s_user := s_user s |}.
 Definition set_ip (s : sess) (ip : option N) : sess :=
   {| s_id := s_id s; s_mac := s_mac s; s_state := s_state s; s_auth := s_auth s; s_ip := ip;
-     s_lcpid := s_lcpid s; s_pin := s_pin s; s_pout := s_pout s; s_inst := s_inst s |}.
+     s_lcpid := s_lcpid s; s_pin := s_pin s; s_pout := s_pout s; s_inst := s_inst s;
+     s_hu := s_hu s; s_svc := s_svc s; s_user := s_user s |}.
 Definition bump_in (s : sess) : sess :=      (* UpdateActivity + AddBytesIn *)
   {| s_id := s_id s; s_mac := s_mac s; s_state := s_state s; s_auth := s_auth s; s_ip := s_ip s;
-     s_lcpid := s_lcpid s; s_pin := s_pin s + 1; s_pout := s_pout s; s_inst := s_inst s |}.
+     s_lcpid := s_lcpid s; s_pin := s_pin s + 1; s_pout := s_pout s; s_inst := s_inst s;
+     s_hu := s_hu s; s_svc := s_svc s; s_user := s_user s |}.
 Definition next_ident (s : sess) : sess :=   (* NextLCPIdentifier: uint8 ++ *)
   {| s_id := s_id s; s_mac := s_mac s; s_state := s_state s; s_auth := s_auth s; s_ip := s_ip s;
-     s_lcpid := u8 (s_lcpid s + 1); s_pin := s_pin s; s_pout := s_pout s; s_inst := s_inst s |}.
+     s_lcpid := u8 (s_lcpid s + 1); s_pin := s_pin s; s_pout := s_pout s; s_inst := s_inst s;
+     s_hu := s_hu s; s_svc := s_svc s; s_user := s_user s |}.
+Definition set_user (s : sess) (u : bytes) : sess :=
+  {| s_id := s_id s; s_mac := s_mac s; s_state := s_state s; s_auth := s_auth s; s_ip := s_ip s;
+     s_lcpid := s_lcpid s; s_pin := s_pin s; s_pout := s_pout s; s_inst := s_inst s;
+     s_hu := s_hu s; s_svc := s_svc s; s_user := u |}.
 (* sendPPPPacket *)
 Definition sent (s : sess) : sess :=
   {| s_id := s_id s; s_mac := s_mac s; s_state := s_state s; s_auth := s_auth s; s_ip := s_ip s;
-     s_lcpid := s_lcpid s; s_pin := s_pin s; s_pout := s_pout s + 1; s_inst := s_inst s |}.
+     s_lcpid := s_lcpid s; s_pin := s_pin s; s_pout := s_pout s + 1; s_inst := s_inst s;
+     s_hu := s_hu s; s_svc := s_svc s; s_user := s_user s |}.
 Definition ppp_frame (s : sess) (proto : N) (data : bytes) : eframe := ESess (s_mac s) (s_id s) proto data.
 
 (* IPPool.Release(session.SessionID) *)
@@ -266,10 +279,10 @@ Definition start_ipcp (c : config) (st : state) (s : sess) (fr : list eframe) (r
 Definition handle_pap (c : config) (st : state) (s : sess) (payload : bytes) (oracle : N) : sres :=
   match parse_pap payload with
   | None => keep st s []
-  | Some id =>
+  | Some (id, user) =>
       let ok := if c_radius c then oracle =? 0 else true in
       let rad := if c_radius c then 1 + oracle else 0 in
-      let s1 := set_auth s ok in
+      let s1 := set_auth (set_user s user) ok in
       if ok then
         start_ipcp c st (set_state (sent s1) StIPCP) [ppp_frame s1 ProtoPAP (pap_resp 2 id msg_ok)] rad
       else
@@ -356,7 +369,10 @@ Definition handle_padr (c : config) (st : state) (src : N) (tags : list (N * byt
       | None => (st, mk_out st [] 0 true, [])
       | Some id =>
           let s0 := {| s_id := id; s_mac := src; s_state := StLCP; s_auth := false; s_ip := None;
-                       s_lcpid := 0; s_pin := 0; s_pout := 0; s_inst := st_ninst st |} in
+                       s_lcpid := 0; s_pin := 0; s_pout := 0; s_inst := st_ninst st;
+                       s_hu := find_tag tags TagHostUniq;              (* session.HostUniq = hu.Value *)
+                       s_svc := match find_tag tags TagServiceName with Some v => v | None => [] end;
+                       s_user := [] |} in
           let hu := match find_tag tags TagHostUniq with Some v => [(TagHostUniq, v)] | None => [] end in
           let r := lcp_request c s0 in          (* go startLCPNegotiation(session) *)
           let st' := {| st_sessions := insert_sess (fst r) (st_sessions st);
@@ -404,7 +420,8 @@ Definition handle_session (g : gates) (c : config) (st : state) (src sid proto :
 
 Definition set_mac (m : N) (s : sess) : sess :=
   {| s_id := s_id s; s_mac := m; s_state := s_state s; s_auth := s_auth s; s_ip := s_ip s;
-     s_lcpid := s_lcpid s; s_pin := s_pin s; s_pout := s_pout s; s_inst := s_inst s |}.
+     s_lcpid := s_lcpid s; s_pin := s_pin s; s_pout := s_pout s; s_inst := s_inst s;
+     s_hu := s_hu s; s_svc := s_svc s; s_user := s_user s |}.
 (* without [G3]: recv overwrote the buffer every Session.ClientMAC points into *)
 Definition alias_macs (st : state) (src : N) : state :=
   {| st_sessions := map (set_mac src) (st_sessions st); st_macidx := st_macidx st; st_next := st_next st;
@@ -433,10 +450,13 @@ Definition step_prefix : config -> state -> op -> state * out * list N := step_g
 (* ---- equality on observables ---- *)
 Definition opt_eqb (a b : option N) : bool :=
   match a, b with Some x, Some y => x =? y | None, None => true | _, _ => false end.
+Definition optb_eqb (a b : option bytes) : bool :=
+  match a, b with Some x, Some y => bytes_eqb x y | None, None => true | _, _ => false end.
 Definition sess_eqb (a b : sess) : bool :=
   (s_id a =? s_id b) && (s_mac a =? s_mac b) && (s_state a =? s_state b) && Bool.eqb (s_auth a) (s_auth b)
   && opt_eqb (s_ip a) (s_ip b) && (s_lcpid a =? s_lcpid b) && (s_pin a =? s_pin b) && (s_pout a =? s_pout b)
-  && (s_inst a =? s_inst b).
+  && (s_inst a =? s_inst b) && optb_eqb (s_hu a) (s_hu b) && bytes_eqb (s_svc a) (s_svc b)
+  && bytes_eqb (s_user a) (s_user b).
 Fixpoint list_eqb {A} (e : A -> A -> bool) (a b : list A) : bool :=
   match a, b with
   | [], [] => true
